@@ -65,6 +65,9 @@ pub struct Op {
     pub vec: bool,
     /// await readable()/writable() before the operation
     pub pre: bool,
+    /// write plans only: issue a zero-length write first (an empty frame): it has to complete at once with Ok(0)
+    #[serde(default)]
+    pub empty: bool,
 }
 
 #[derive(Serialize, Deserialize, Debug, Clone, Hash)]
@@ -132,7 +135,7 @@ fn topo_name(t: u8) -> &'static str {
 
 fn norm_ops(v: &[Op], cap: u32) -> Vec<Op> {
     if v.is_empty() {
-        return vec![Op { n: 4096.min(cap), vec: false, pre: false }];
+        return vec![Op { n: 4096.min(cap), vec: false, pre: false, empty: false }];
     }
     v.iter().map(|o| Op { n: o.n.clamp(1, cap), ..*o }).collect()
 }
@@ -299,6 +302,7 @@ struct TaskSt {
     wb_read: Cell<u64>,
     wb_write: Cell<u64>,
     pre_awaits: Cell<u64>,
+    empty_writes: Cell<u64>,
     vectored: Cell<u64>,
     done: Cell<bool>,
     /// the adapter has been (or is being) ended
@@ -326,6 +330,7 @@ impl TaskSt {
             wb_read: Cell::new(0),
             wb_write: Cell::new(0),
             pre_awaits: Cell::new(0),
+            empty_writes: Cell::new(0),
             vectored: Cell::new(0),
             done: Cell::new(false),
             ended: Cell::new(false),
@@ -554,6 +559,32 @@ async fn write_all_chunked(io: &mut Io, data: &[u8], ops: &[Op], i: &mut usize, 
         *i += 1;
         if op.pre {
             a_ready(io, Want::Write, st).await;
+        }
+        if op.empty {
+            // an empty frame: nothing to wait for, so one poll has to settle it
+            let r = poll_fn(|cx| {
+                Poll::Ready(if op.vec {
+                    Pin::new(&mut *io).poll_write_vectored(cx, &[IoSlice::new(&[]), IoSlice::new(&[])])
+                } else {
+                    Pin::new(&mut *io).poll_write(cx, &[])
+                })
+            })
+            .await;
+            match r {
+                Poll::Ready(Ok(0)) => st.empty_writes.set(st.empty_writes.get() + 1),
+                Poll::Ready(Ok(n)) => {
+                    st.fail(format!("a zero-length write reported {n} bytes written"));
+                    return false;
+                }
+                Poll::Ready(Err(e)) => {
+                    st.fail(format!("a zero-length write failed: {e} (peer open)"));
+                    return false;
+                }
+                Poll::Pending => {
+                    st.fail("a zero-length write did not complete at once (it returned Pending): the task waits for a readiness it does not need and, re-polled, never gets past the empty write".to_string());
+                    return false;
+                }
+            }
         }
         let hi = (off + op.n as usize).min(data.len());
         match a_write(io, &data[off..hi], op.vec, st).await {
@@ -822,6 +853,7 @@ struct Stats {
     foreign_used: u64,
     foreign_woken: u64,
     pre_awaits: u64,
+    empty_writes: u64,
     vectored: u64,
     eof_seen: bool,
     inconclusive: Option<&'static str>,
@@ -1307,6 +1339,7 @@ fn run_inner(case: &Case) -> (Stats, Option<Violation>) {
         stats.wb_read += t.wb_read.get();
         stats.switches += t.switches.get();
         stats.pre_awaits += t.pre_awaits.get();
+        stats.empty_writes += t.empty_writes.get();
         stats.vectored += t.vectored.get();
         stats.eof_seen |= t.eof_seen.get();
     }
@@ -1377,6 +1410,9 @@ pub fn run_case(case: &Case) -> CaseOutcome {
     if s.vectored > 0 {
         info.classes.push("vectored_op");
     }
+    if s.empty_writes > 0 {
+        info.classes.push("zero_length_write");
+    }
     if s.eof_seen {
         info.classes.push("eof_read");
     }
@@ -1435,7 +1471,7 @@ fn size() -> impl Strategy<Value = u32> {
 }
 
 fn op() -> impl Strategy<Value = Op> {
-    (size(), prop::bool::weighted(0.25), prop::bool::weighted(0.25)).prop_map(|(n, vec, pre)| Op { n, vec, pre })
+    (size(), prop::bool::weighted(0.25), prop::bool::weighted(0.25), prop::bool::weighted(0.08)).prop_map(|(n, vec, pre, empty)| Op { n, vec, pre, empty })
 }
 
 fn ops() -> impl Strategy<Value = Vec<Op>> {
@@ -1577,7 +1613,7 @@ fn case_from_bytes(data: &[u8]) -> Case {
         2 => d.u32r(600, 6000),
         _ => d.u32r(6000, 70_000),
     };
-    let op = |d: &mut Dec| Op { n: size(d), vec: d.pct(25), pre: d.pct(25) };
+    let op = |d: &mut Dec| Op { n: size(d), vec: d.pct(25), pre: d.pct(25), empty: d.pct(8) };
     let ops = |d: &mut Dec| {
         let n = d.len(0, 5);
         (0..n).map(|_| op(d)).collect::<Vec<_>>()
